@@ -271,6 +271,65 @@ pub proof fn lemma_csigs_cv(h: Header, v: Value)
         forall |i: int| 0 <= i < arr_of(v).len() ==> vv(#[trigger] arr_of(v)[i]) == sig_cv(h.counter_signatures@[i]),
     ensures vv(v) == csigs_cv(h),
 { lemma_vv_value_array(v); assert(vv_seq(arr_of(v)) =~= csigs_cv(h)->Array_0); }
+// ---- C07 (first step): whatever decoding produced encodes successfully
+pub proof fn lemma_rest_of_props(m: Seq<(Value, Value)>)
+    requires hdr_labels_distinct(m),
+    ensures
+        forall |a: int| 0 <= a < rest_of(m).len() ==> !is_typed_hdr_label((#[trigger] rest_of(m)[a]).0) && has_label(m, m.len() as int, rest_of(m)[a].0),
+        forall |a: int, b: int| 0 <= a < b < rest_of(m).len() ==> (#[trigger] rest_of(m)[a]).0 != (#[trigger] rest_of(m)[b]).0,
+    decreases m.len()
+{
+    if m.len() > 0 {
+        let p = m.drop_last();
+        assert forall |i: int, j: int| 0 <= i < j < p.len() implies #[trigger] label_of(p[i].0) != #[trigger] label_of(p[j].0) by { assert(p[i] == m[i] && p[j] == m[j]); }
+        lemma_rest_of_props(p);
+        let rp = rest_of(p); let r = rest_of(m);
+        assert forall |a: int| 0 <= a < rp.len() implies has_label(m, m.len() as int, (#[trigger] rp[a]).0) by {
+            let i = choose |i: int| 0 <= i < p.len() && #[trigger] label_of(p[i].0) == Some(rp[a].0);
+            assert(p[i] == m[i]);
+        }
+        assert forall |a: int| 0 <= a < r.len() implies !is_typed_hdr_label((#[trigger] r[a]).0) && has_label(m, m.len() as int, r[a].0) by {
+            if a < rp.len() { assert(r[a] == rp[a]); } else { assert(label_of(m[m.len() - 1].0) == Some(r[a].0)); }
+        }
+        assert forall |a: int, b: int| 0 <= a < b < r.len() implies (#[trigger] r[a]).0 != (#[trigger] r[b]).0 by {
+            if b < rp.len() { assert(r[a] == rp[a] && r[b] == rp[b]); }
+            else {
+                assert(r[a] == rp[a]);
+                let i = choose |i: int| 0 <= i < p.len() && #[trigger] label_of(p[i].0) == Some(rp[a].0);
+                assert(p[i] == m[i]);
+                assert(label_of(m[m.len() - 1].0) == Some(r[b].0));
+            }
+        }
+    }
+}
+pub proof fn lemma_decoded_header_encodable(v: Value, d: nat, h: Header)
+    requires hdr_ok(v, d), hdr_res(v, d, h),
+    ensures hdr_encodable(h),
+    decreases max_nest() - d, v, 0nat
+{
+    let m = map_of(v);
+    lemma_rest_of_props(m);
+    assert(m.subrange(0, m.len() as int) =~= m);
+    assert(rest_labels_ok(h));
+    assert forall |i: int| 0 <= i < h.counter_signatures@.len() implies sig_encodable(#[trigger] h.counter_signatures@[i]) by {
+        assert(has_label(m, m.len() as int, Label::Int(7)));
+        let k = choose |k: int| 0 <= k < m.len() && #[trigger] label_of(m[k].0) == Some(Label::Int(7));
+        let sv = m[k].1;
+        assert(hdr_pair_ok(m[k].0, sv, d));
+        assert(csig_ok(sv, d) && csigs_res(sv, d, h.counter_signatures@));
+        lemma_map_elem_decreases(v, k);
+        if arr_of(sv)[0] is Bytes { lemma_decoded_sig_encodable(sv, d, h.counter_signatures@[i]); }
+        else { lemma_arr_elem_decreases(sv, i); lemma_decoded_sig_encodable(arr_of(sv)[i], d, h.counter_signatures@[i]); }
+    }
+}
+pub proof fn lemma_decoded_sig_encodable(v: Value, d: nat, s: CoseSignature)
+    requires sig_ok(v, d), sig_res(v, d, s),
+    ensures sig_encodable(s),
+    decreases max_nest() - d, v, 1nat
+{
+    lemma_arr_elem_decreases(v, 1);
+    lemma_decoded_header_encodable(arr_of(v)[1], d, s.unprotected);
+}
 // ---- C12 (encode): an encodable header never puts the same key into its map twice
 pub open spec fn cv_keys_distinct(m: Seq<(CV, CV)>) -> bool { forall |i: int, j: int| 0 <= i < j < m.len() ==> (#[trigger] m[i]).0 != (#[trigger] m[j]).0 }
 pub proof fn lemma_typed_prefix_keys(h: Header, k: int)
